@@ -58,5 +58,68 @@ def expectedLoop : List RTok :=
      .close,
    .close]
 
+/-! ## The kafka (sarama) send loop: `for { msg, ok = <-mCh; if !ok { break }; <offer> }` -/
+
+/-- how the body of one arm of the `select` ends -/
+inductive ArmExit where
+  /-- the arm reaches its end: control leaves the `select` -/
+  | fallOut
+  /-- the arm's last statement is `break <label>` -/
+  | breakLabel (label : String)
+  /-- any other jump (`break`, `continue`, `return`, `goto`, …): no meaning given, no theorem accepts it -/
+  | other (go : String)
+deriving DecidableEq, Repr
+
+/-- the body of one arm of the `select` -/
+structure KArm where
+  /-- `k.logger.Print…(…)` statements -/
+  logs : Nat
+  /-- `*ec++` statements -/
+  incs : Nat
+  exit : ArmExit
+  /-- statements the extractor does not recognise (Go text); must be empty -/
+  junk : List String
+deriving DecidableEq, Repr
+
+/-- the statement that offers the message in hand to the client library: a `select` with exactly the
+    arms `case k.producer.Input() <- &sarama.ProducerMessage{…}:` (`input`) and
+    `case err := <-k.producer.Errors():` (`error`), no `default` -/
+inductive Offer where
+  /-- the `select` stands directly in the receive loop -/
+  | selectOnce (input error : KArm)
+  /-- `label: for { select { … } }` — the labelled loop holds nothing but the `select` -/
+  | selectLoop (label : String) (input error : KArm)
+  | unrecognised (go : String)
+deriving DecidableEq, Repr
+
+/-- `KafkaSarama.inputMsg`: its one `for { … }` -/
+structure KLoop where
+  /-- the loop body begins with `msg, ok = <-mCh` and `if !ok { break }` -/
+  recvFirst : Bool
+  /-- the statement after those two -/
+  offer : Offer
+  /-- every other statement of the loop body, and every statement of the function that is not a plain
+      `var` declaration, the start-up log line, the loop or `k.producer.Close()` (Go text); must be empty -/
+  extra : List String
+deriving DecidableEq, Repr
+
+/-- the repaired loop (F20): the select is repeated until `Input()` has accepted the message; every
+    error report taken meanwhile is logged and counted once -/
+def expectedSaramaLoop : KLoop :=
+  { recvFirst := true,
+    offer := .selectLoop "offer"
+      { logs := 0, incs := 0, exit := .breakLabel "offer", junk := [] }
+      { logs := 1, incs := 1, exit := .fallOut, junk := [] },
+    extra := [] }
+
+/-- the loop as it was before the F20 repair (`producer/sarama.go` up to 4d10a36): one `select` per
+    message; after the error arm control leaves the `select` too, and the next message is received -/
+def saramaLoopBeforeF20 : KLoop :=
+  { recvFirst := true,
+    offer := .selectOnce
+      { logs := 0, incs := 0, exit := .fallOut, junk := [] }
+      { logs := 1, incs := 1, exit := .fallOut, junk := [] },
+    extra := [] }
+
 end Producer
 end Vflow
